@@ -98,6 +98,7 @@ def main(argv=None):
     # triage failures: confirm by replay, match known findings, bucket by key
     known_hit = {}
     viol = {}
+    unconfirmed = False
     for f in ctx.failures:
         kid = classify(f) if classify else None
         if kid in known:
@@ -114,8 +115,11 @@ def main(argv=None):
             print("HARNESS-ERROR property=%s (confirming replay of %s)" % (pid, f.key))
             return 2
         if again is None:
-            ctx.ev.label("unconfirmed_failure_dropped")
-            print("note: failure %s did not reproduce from its replay form; dropped: %s" % (f.key, f.detail[:300]))
+            # a failure that the oracle reported but that does not reproduce from its serialised form points at state
+            # leaking between cases or at a replay() that does not cover this case kind: a harness problem, not a pass
+            ctx.ev.label("unconfirmed_failure")
+            print("HARNESS-ERROR property=%s failure %s did not reproduce from its replay form: %s" % (pid, f.key, f.detail[:500]))
+            unconfirmed = True
             continue
         kid = classify(again) if classify else None
         if kid in known:
@@ -142,6 +146,8 @@ def main(argv=None):
         % (pid, args.tier, seed, cov["evaluations"], cov["distinct_nontrivial"],
            dict(cov["excluded_known"]), doc["wall_s"], "VIOLATION" if rc else "ok")
     )
+    if unconfirmed and rc == 0:
+        return 2
     return rc
 
 
